@@ -144,7 +144,7 @@ def run(ctx, chk):
     chk.floor("C07.total", "serializer paths", nt, 60)
 
     # (3) size mirrors
-    check_size(chk, prog, eff, cache)
+    check_size(chk, prog, eff, cache, H_)
 
     # (4) exact allocation
     f = prog.fn("cbor_serialize_alloc")
@@ -171,10 +171,11 @@ def run(ctx, chk):
     chk.exhaustive = True
 
 
-def check_size(chk, prog, eff, cache):
+def check_size(chk, prog, eff, cache, H=None):
     import typestate as _ts
     PA_ = _ts.PredAlgebra(prog)
     CS_ = _ts.CallSites(prog, eff, cache, {}, PA_)
+    CS_H = _ts.CallSites(prog, eff, cache, H or {}, PA_)
     f = prog.fn("cbor_serialized_size")
     where = "%s:%d" % (f.file, f.line)
     T = prog.enum("cbor_type")
@@ -291,5 +292,58 @@ def check_size(chk, prog, eff, cache):
             if both_var and not is_induction:
                 chk.ob("C07.size-sum", "raw %s of two sizes at %s" % (i.op, i.loc()), False, i.loc(), fn=f.name, key="raw:%d" % i.line,
                        detail="sizes must be combined with _cbor_safe_signaling_add so that overflow yields 0")
+    # the head's argument: the size function sizes the head for the very quantity the serializer writes into it
+    chk.rule("C07.size-arg", "for every type with a counted head (definite strings, arrays, maps; tags) the value cbor_serialized_size hands "
+                             "to the header-size function is the same field of the item that the serializer hands to the head encoder "
+                             "(accessor calls resolved to the fields they read)")
+    pure = {n for n, g in prog.funcs.items() if not g.is_extra and n in eff.summ and not eff.summ[n]["writes"] and not eff.summ[n]["allocates"]
+            and not eff.summ[n]["frees"] and not eff.summ[n]["callbacks"] and n not in eff.transitive_callees(n) and not g.back_edges()
+            and n not in ("_cbor_encoded_header_size", "_cbor_safe_signaling_add", "_cbor_safe_to_add", "_cbor_safe_to_multiply")
+            and not n.startswith("cbor_encode_") and not n.startswith("_cbor_encode_")}
+
+    def canon(t):
+        if isinstance(t, tuple) and t[0] == "ld":
+            return ("ld", canon(t[1]), t[2])
+        if isinstance(t, tuple) and t[0] == "cast":
+            return canon(t[3])
+        if isinstance(t, tuple):
+            return tuple(canon(x) if isinstance(x, tuple) else x for x in t)
+        return t
+
+    def head_args(fname, is_head):
+        out = {}
+        g_ = prog.fn(fname)
+        X_ = P.Executor(prog, eff, inline=(O.static_callees(prog, eff, fname) | pure) - {fname}, loop_bound=1)
+        for pa in X_.run(fname):
+            tys_, _iw, _fw, fl_ = CS_H.summary(g_, pa, ("arg", 0))
+            if len(tys_) != 1:
+                continue
+            for e in pa.events:
+                if e.kind == "call" and is_head(e):
+                    out.setdefault((sorted(tys_)[0], tuple(sorted(fl_))), set()).add(canon(e.args[0]))
+                    break
+        return out
+    size_side = head_args(f.name, lambda e: e.callee == "_cbor_encoded_header_size")
+    ser_side = {}
+    for sn in ("cbor_serialize_bytestring", "cbor_serialize_string", "cbor_serialize_array", "cbor_serialize_map", "cbor_serialize_tag"):
+        for k_, v_ in head_args(sn, lambda e: e.ckind == "lib" and e.callee.startswith("cbor_encode_") and
+                                (e.callee.endswith("_start") or e.callee == "cbor_encode_tag") and "indef" not in e.callee).items():
+            ser_side.setdefault(k_, set()).update(v_)
+    narg = 0
+    Tn_ = {v: k for k, v in T.items()}
+    for key_, terms in sorted(size_side.items()):
+        t_, fl_ = key_
+        if t_ not in (T["CBOR_TYPE_BYTESTRING"], T["CBOR_TYPE_STRING"], T["CBOR_TYPE_ARRAY"], T["CBOR_TYPE_MAP"], T["CBOR_TYPE_TAG"]):
+            continue
+        want = ser_side.get(key_)
+        if want is None:
+            want = set().union(*[v for k2, v in ser_side.items() if k2[0] == t_]) if any(k2[0] == t_ for k2 in ser_side) else None
+        narg += 1
+        ok = want is not None and terms <= want
+        chk.ob("C07.size-arg", "%s (flavours %s): header sized for the quantity the serializer encodes" % (Tn_[t_], list(fl_)), ok, where, fn=f.name,
+               key="sizearg:%d:%s" % (t_, fl_),
+               detail="" if ok else "size uses %s, the serializer encodes %s" % (sorted(DR.fmt_term(x) for x in terms),
+                                                                                 sorted(DR.fmt_term(x) for x in (want or []))))
+    chk.floor("C07.size-arg", "counted heads compared", narg, 4)
     chk.floor("C07.size-leaf", "leaf cases", nleaf, 6)
     chk.floor("C07.size-sum", "composite paths", sums, 12)
